@@ -191,6 +191,11 @@ def handleMachine (st : DState) (ws : List String) : Option (DState × String) :
       | _ => (0, 0)
     if st.poisoned then some (st, "unspecified") else
     if !hasDec st.dec st.m then some (st, "no-decode-info") else
+    -- a brk that asks for more than 16 MiB: whether the host can allocate it is outside the model, and the model does
+    -- not materialise such a list; the implementation's outcome is still judged by the crash oracle
+    let bigBrk : Bool := st.m.sys.registered.contains 12 && st.m.regs.get RAX == 12#64 &&
+      (st.m.regs.get RDI).toNat > st.m.sys.brkStart + st.m.sys.brkLen + 2 ^ 24
+    if bigBrk then some ({ st with poisoned := true }, "unspecified") else
     -- user hooks registered after the syscall handlers come later in the chain; the builtin pipe hook sits at a
     -- fixed index among the builtin ones
     let hooks := withFds st.hooks st.m.sys.registered fds
